@@ -5,26 +5,30 @@ Model of `muc/muc.go` (`Client.HandlePresence`, `Client.HandleMessage`) and `muc
 (`Channel.JoinPresence`, `LeavePresence`, `Joined`) after the repairs recorded in
 `KNOWN_FINDINGS.txt`:
 
-* `Channel.JoinPresence` registers the channel in `Client.managed` under its occupant
-  address (also on a re-join), empties the `depart` channel, and on failure removes its
-  stale hand-off request and — if the channel is not joined — its registration;
-* the presence handler sets `Channel.joined` when it hands the self-presence to the pending
-  join, and clears it (and deletes the registration under the key it was found with) on the
-  occupant's unavailable presence; `depart` is a buffered channel of capacity one;
-* `Channel.Joined` reports that flag;
-* an error reply to the leave request also clears the flag and the registration (the package's
-  own test `TestPartError` requires `Joined() = false` after a refused `Leave`; the property
-  text does not — recorded as a known finding, see `Props/C18.lean`).
+* `Channel.JoinPresence` registers the channel in `Client.managed` under the occupant address it
+  *requests* (`req`; the address it holds, `cur`, or another nickname through the `Nick` option),
+  refuses with `ErrOccupantInUse` if another channel is registered there, empties `depart`,
+  and on failure removes its hand-off request and the registration under the requested address
+  unless that is the address the channel is still joined under;
+* while a change of nickname is pending the channel stays registered under the address it holds;
+  the presence handler completes a pending join only with an available presence *from the
+  requested address*, then makes that the held address (dropping the old registration), sets
+  `Channel.joined` and empties `depart`; other available presences of a registered address go
+  to `HandleUserPresence`;
+* an unavailable presence removes the registration it was found under and — only if that is the
+  held address — clears `joined` and leaves a token in the buffered `depart` channel;
+* `Channel.Joined` reports the flag; an error reply to the leave request also clears it and the
+  registration (the package's own test `TestPartError` requires `Joined() = false` after a refused
+  `Leave`; the property text does not — known finding, see `Props/C18.lean`).
 
-Channels are numbered; `addr c` is the occupant address of channel `c` (static here: a
-re-join with another nickname is exercised by the harness only).  The presence handler runs
-under `managedM`, so each presence is one atomic step; `Join`/`Leave` are split at their
-`select`.  The environment may send any presence / error / invitation / unrelated stanza for
-any address at any time and cancel any context.
+Channels are numbered; occupant addresses are numbers (room and nickname together).  The presence
+handler runs under `managedM`, so each presence is one atomic step; `Join`/`Leave` are split at
+their `select`.  The environment may send any presence / error / invitation / unrelated stanza
+for any address at any time and cancel any context.
 -/
 namespace XmppModel.Muc
 
-inductive JErr | stanzaErr | ctxErr
+inductive JErr | stanzaErr | ctxErr | refused
   deriving DecidableEq, Repr, Inhabited
 
 inductive JOut | ok | err (e : JErr)
@@ -36,12 +40,25 @@ inductive JPc
   | failing (e : JErr)      -- the select took the error reply / the context; clean-up not done yet
   deriving DecidableEq, Repr, Inhabited
 
+/-- a child element of a message stanza, as far as the invitation handler cares -/
+inductive Child
+  | body | subject | legacyX          -- <body/>, <subject/>, <x xmlns='jabber:x:conference'/>
+  | unrelated                         -- any other payload
+  | mucInvite                         -- <x xmlns='…muc#user'> carrying at least one <invite/>
+  | mucOther                          -- <x xmlns='…muc#user'> without an invite (decline, status)
+  deriving DecidableEq, Repr, Inhabited
+
+/-- the mediated invitation payloads of a message, wherever they stand among the children -/
+def invitationsIn (cs : List Child) : Nat := (cs.filter (· == .mucInvite)).length
+
 inductive LPc | idle | waiting
   deriving DecidableEq, Repr, Inhabited
 
 structure St where
   managed : Nat → Option Nat     -- occupant address ↦ channel  (`Client.managed`)
   jpc : Nat → JPc
+  cur : Nat → Nat                -- `Channel.addr`: the occupant address the channel holds
+  req : Nat → Nat                -- the occupant address the current / last `Join` call asked for
   lpc : Nat → LPc
   joined : Nat → Bool            -- `Channel.joined`: what `Joined()` reports
   depart : Nat → Bool            -- a token waits in the buffered `depart` channel
@@ -54,28 +71,35 @@ structure St where
 
 def upd {α} (f : Nat → α) (i : Nat) (v : α) : Nat → α := fun j => if j = i then v else f j
 
-def init : St :=
-  { managed := fun _ => none, jpc := fun _ => .idle, lpc := fun _ => .idle, joined := fun _ => false,
+/-- `addr0 c`: the occupant address channel `c` is created with -/
+def init (addr0 : Nat → Nat) : St :=
+  { managed := fun _ => none, jpc := fun _ => .idle, cur := addr0, req := addr0, lpc := fun _ => .idle, joined := fun _ => false,
     depart := fun _ => false, member := fun _ => false, memberX := fun _ => false, lastJoin := fun _ => none,
     lastLeave := fun _ => none, upres := 0, invites := 0 }
 
 inductive Act
-  | joinStart (c : Nat) | joinError (c : Nat) | joinCancel (c : Nat) | joinCleanup (c : Nat)
+  | joinStart (c a : Nat)    -- `Join` of channel `c` asking for occupant address `a`
+  | joinError (c : Nat) | joinCancel (c : Nat) | joinCleanup (c : Nat)
   | avail (a : Nat)          -- available presence with a muc#user payload from occupant address `a`
   | unavail (a : Nat)        -- unavailable presence … from `a`
   | leaveStart (c : Nat) | leaveDepart (c : Nat) | leaveError (c : Nat) | leaveCancel (c : Nat)
-  | invite                   -- message carrying a mediated invitation
+  | message (children : List Child)  -- a message stanza with these children, in this order
   | unrelated                -- any stanza the MUC handlers are not registered for
   deriving DecidableEq, Repr
 
-/-- The ghost `member` is driven by the *observable* events of the property text only:
-it becomes true when a `Join` call succeeds and false when the unavailable presence of the
-channel's occupant address is processed — it never looks at `managed`.  `memberX` is the
+/-- The ghosts are driven by the *observable* events of the property text only: `member`
+becomes true when a `Join` call succeeds and false when the unavailable presence of the occupant
+address the channel holds (`Me()`) is processed — it never looks at `managed`.  `memberX` is the
 same except that the room's error reply to a `Leave` call clears it too. -/
-def step (addr : Nat → Nat) (s : St) : Act → Option St
-  | .joinStart c => match s.jpc c with
-    | .idle => some { s with managed := upd s.managed (addr c) (some c), depart := upd s.depart c false,
-                             jpc := upd s.jpc c .pending, lastJoin := upd s.lastJoin c none }
+def step (s : St) : Act → Option St
+  | .joinStart c a => match s.jpc c with
+    | .idle =>
+      if s.managed a ≠ none ∧ s.managed a ≠ some c then      -- another channel is registered there
+        some { s with lastJoin := upd s.lastJoin c (some (.err .refused)) }
+      else
+        some { s with managed := upd s.managed a (some c), req := upd s.req c a,
+                      depart := upd s.depart c false,
+                      jpc := upd s.jpc c .pending, lastJoin := upd s.lastJoin c none }
     | _ => none
   | .joinError c => match s.jpc c with
     | .pending => some { s with jpc := upd s.jpc c (.failing .stanzaErr) }
@@ -85,23 +109,30 @@ def step (addr : Nat → Nat) (s : St) : Act → Option St
     | _ => none
   | .joinCleanup c => match s.jpc c with
     | .failing e => some { s with jpc := upd s.jpc c .idle, lastJoin := upd s.lastJoin c (some (.err e)),
-                                  managed := if s.managed (addr c) = some c ∧ s.joined c = false
-                                             then upd s.managed (addr c) none else s.managed }
+                                  managed := if s.managed (s.req c) = some c ∧ ¬ (s.joined c = true ∧ s.cur c = s.req c)
+                                             then upd s.managed (s.req c) none else s.managed }
     | _ => none
   | .avail a => match s.managed a with
     | none => some s
-    | some c => match s.jpc c with
-      | .pending => some { s with joined := upd s.joined c true, member := upd s.member c true,
-                                  memberX := upd s.memberX c true,
-                                  jpc := upd s.jpc c .idle, lastJoin := upd s.lastJoin c (some .ok) }
-      | _ => some { s with upres := s.upres + 1 }
+    | some c =>
+      if s.jpc c = .pending ∧ s.req c = a then
+        some { s with joined := upd s.joined c true, member := upd s.member c true,
+                      memberX := upd s.memberX c true,
+                      managed := if s.cur c ≠ a ∧ s.managed (s.cur c) = some c
+                                 then upd s.managed (s.cur c) none else s.managed,
+                      cur := upd s.cur c a, depart := upd s.depart c false,
+                      jpc := upd s.jpc c .idle, lastJoin := upd s.lastJoin c (some .ok) }
+      else some { s with upres := s.upres + 1 }
   | .unavail a =>
-    let s1 := { s with member := fun c => if addr c = a then false else s.member c,
-                       memberX := fun c => if addr c = a then false else s.memberX c }
+    let s1 := { s with member := fun c => if s.cur c = a then false else s.member c,
+                       memberX := fun c => if s.cur c = a then false else s.memberX c }
     match s.managed a with
     | none => some s1
-    | some c => some { s1 with managed := upd s.managed a none, joined := upd s.joined c false,
-                               depart := upd s.depart c true }
+    | some c =>
+      if s.cur c = a then
+        some { s1 with managed := upd s.managed a none, joined := upd s.joined c false,
+                       depart := upd s.depart c true }
+      else some { s1 with managed := upd s.managed a none }
   | .leaveStart c => match s.lpc c with
     | .idle => some { s with lpc := upd s.lpc c .waiting, lastLeave := upd s.lastLeave c none }
     | _ => none
@@ -113,23 +144,23 @@ def step (addr : Nat → Nat) (s : St) : Act → Option St
   | .leaveError c => match s.lpc c with
     | .waiting => some { s with lpc := upd s.lpc c .idle, lastLeave := upd s.lastLeave c (some (.err .stanzaErr)),
                                 joined := upd s.joined c false, memberX := upd s.memberX c false,
-                                managed := if s.managed (addr c) = some c then upd s.managed (addr c) none
+                                managed := if s.managed (s.cur c) = some c then upd s.managed (s.cur c) none
                                            else s.managed }
     | _ => none
   | .leaveCancel c => match s.lpc c with
     | .waiting => some { s with lpc := upd s.lpc c .idle, lastLeave := upd s.lastLeave c (some (.err .ctxErr)) }
     | _ => none
-  | .invite => some { s with invites := s.invites + 1 }
+  | .message cs => some { s with invites := s.invites + invitationsIn cs }
   | .unrelated => some s
 
-def run (addr : Nat → Nat) : St → List Act → Option St
+def run : St → List Act → Option St
   | s, [] => some s
-  | s, a :: as => match step addr s a with
-    | some s' => run addr s' as
+  | s, a :: as => match step s a with
+    | some s' => run s' as
     | none => none
 
-inductive Reach (addr : Nat → Nat) : St → Prop
-  | init : Reach addr init
-  | step {s s' a} : Reach addr s → step addr s a = some s' → Reach addr s'
+inductive Reach (addr0 : Nat → Nat) : St → Prop
+  | init : Reach addr0 (init addr0)
+  | step {s s' a} : Reach addr0 s → step s a = some s' → Reach addr0 s'
 
 end XmppModel.Muc
